@@ -212,6 +212,26 @@ CHECKS['C08'] = dict(
          "specialisation identity beyond C18. Two genuine defects found by these rules were repaired (b0b69bc, 887b4eb).",
     tech="static analysis: CFG must-precede/must-follow ordering, guard-set exactness over enclosing conditions, loop-exit dependence analysis, sibling agreement, finite abstract evaluation (K-ABS) of the two cost functions")
 
+# ---- clauses added after the first build (second seeded round, mutation campaign) ----------------------------------------
+_ADD = {
+    'C01': " The pair update of the 2x2 applicator is unconditional (no branch, skip or early exit inside the sweep); loop-shape deviations (start, direction) are reported, not given up on.",
+    'C03': " Each qubit slot of a destroyed object is released exactly once (one sweep over the object's fields).",
+    'C05': " Angle operands may go through a formatting helper only if it prints fixed notation with at least six decimals.",
+    'C06': " The simulator's and the evaluator's allocation functions are evaluated abstractly over flag-vector / free-list states (handed-out index is unmeasured, last measurement forgotten); the simulator guard refuses only when the flag is set; bounds excuses are polarity-aware.",
+    'C09': " Every switch of the lexical class context is followed by its own frame boundary before user code runs (per loop iteration), and context members (class context, static/constructor/destructor mode) are saved and restored by every activation.",
+    'C12': " Contradiction rule for nullable syntax-tree links: a link null-tested anywhere in the program is tested before every dereference in the evaluator.",
+    'C14': " Assignment is right-recursive as in the grammar; member modifiers are accepted in any order; the declaration look-ahead is evaluated abstractly on 16 statement-start token patterns against the grammar.",
+    'C17': " Every simulator reset goes with forgetting the last measurement; the (annotated, N) shots pair is annotated=true whatever N; every declarator node of a multi-declaration receives the tracked flag.",
+    'C19': " A resolved import target is loaded before its package is compared; the comparison may live in a helper or closure.",
+    'C20': " parseSemVer is evaluated abstractly on 28 version spellings (prefix, missing components, suffixes, huge numbers, garbage) against the documented reading.",
+}
+for _k, _v in _ADD.items():
+    CHECKS[_k]['text'] = CHECKS[_k]['text'] + _v
+CHECKS['C08']['text'] += (" `this` is stamped with the class installed as context; both overload resolvers are evaluated abstractly on 18 model hierarchies "
+                          "(levels, overrides, widening, class distance, null, ties) against the documented resolution.")
+CHECKS['C07']['text'] += (" Also: every scope opened is closed on every normal path; activations clear the return-value register; explicit casts between int/long/float/bit and "
+                          "unary/postfix operators are evaluated abstractly against the documented results.")
+
 NOT_YET = "check not yet built in this round (framework under construction; see DESIGN.md §4 for the planned static rules)"
 
 
